@@ -26,6 +26,9 @@ import (
 )
 
 //vsym:stub (github.com/opencontainers/go-digest.Algorithm).Digester = c12NewDigester
+//vsym:stub (github.com/opencontainers/go-digest.Algorithm).Hash = c12NewHash
+//vsym:stub (github.com/opencontainers/go-digest.Algorithm).Available = c12Available
+//vsym:stub github.com/opencontainers/go-digest.NewDigest = c12NewDigest
 
 // SHA-256 of the four bytes "blob"
 const c12BlobDigest = "sha256:fa2c8cc4f28176bbeed4b736df569a34c79cd3723e9ec42f9674b4d46ac6b8b8"
@@ -49,6 +52,15 @@ func (d *c12Digester) Digest() digest.Digest {
 		return digest.Digest(c12BlobDigest)
 	}
 	return digest.Digest(string(d.alg) + ":00")
+}
+
+// the other ways go-digest offers to digest a stream
+func c12NewHash(a digest.Algorithm) hash.Hash { return &c12Hash{} }
+func c12Available(a digest.Algorithm) bool {
+	return a == digest.SHA256 || a == digest.SHA384 || a == digest.SHA512
+}
+func c12NewDigest(a digest.Algorithm, h hash.Hash) digest.Digest {
+	return (&c12Digester{alg: a}).Digest()
 }
 
 // c12NewDigester: go-digest's Digester under the engine (the digest of the one blob the harness reads)
